@@ -1428,4 +1428,138 @@ example : (Fn.sub (.var 2) (.const false 16777216 1)).eval (mkEnv [(0 : ℝ)] [(
   · simp [Fn.eval, mkEnv]; norm_num
   · simp [Fn.eval, mkEnv]
 
+/-! ### 11. Affine trees: the first-order expansion is exact -/
+
+/-- a coefficient (no variable below `nv`) has the same value at two environments that agree from `nv` on -/
+theorem eval_free (nv : ℕ) (p p' : ℕ → ℝ) (hp : ∀ j, nv ≤ j → p' j = p j) (e : Fn) (he : e.freeOf nv = true) :
+    e.eval p' = e.eval p := by
+  induction e with
+  | const s a b => simp [Fn.eval]
+  | var i => simp only [Fn.freeOf, decide_eq_true_eq] at he; simp [Fn.eval, hp i he]
+  | add a b iha ihb => simp only [Fn.freeOf, Bool.and_eq_true] at he; simp [Fn.eval, iha he.1, ihb he.2]
+  | sub a b iha ihb => simp only [Fn.freeOf, Bool.and_eq_true] at he; simp [Fn.eval, iha he.1, ihb he.2]
+  | mul a b iha ihb => simp only [Fn.freeOf, Bool.and_eq_true] at he; simp [Fn.eval, iha he.1, ihb he.2]
+  | neg a iha => simp only [Fn.freeOf] at he; simp [Fn.eval, iha he]
+  | sin a iha => simp only [Fn.freeOf] at he; simp [Fn.eval, iha he]
+  | cos a iha => simp only [Fn.freeOf] at he; simp [Fn.eval, iha he]
+  | pow a n iha => simp only [Fn.freeOf] at he; simp [Fn.eval, iha he]
+
+/-- the partial derivatives of a coefficient with respect to the variables below `nv` vanish -/
+theorem D_free (nv : ℕ) (p : ℕ → ℝ) (v : ℕ) (hv : v < nv) (e : Fn) (he : e.freeOf nv = true) :
+    (e.D v).eval p = 0 := by
+  induction e with
+  | const s a b => simp [Fn.D, Fn.zero, Fn.eval]
+  | var i =>
+    simp only [Fn.freeOf, decide_eq_true_eq] at he
+    have : i ≠ v := by omega
+    simp [Fn.D, this, Fn.zero, Fn.eval]
+  | add a b iha ihb => simp only [Fn.freeOf, Bool.and_eq_true] at he; simp [Fn.D, Fn.eval, iha he.1, ihb he.2]
+  | sub a b iha ihb => simp only [Fn.freeOf, Bool.and_eq_true] at he; simp [Fn.D, Fn.eval, iha he.1, ihb he.2]
+  | mul a b iha ihb => simp only [Fn.freeOf, Bool.and_eq_true] at he; simp [Fn.D, Fn.eval, iha he.1, ihb he.2]
+  | neg a iha => simp only [Fn.freeOf] at he; simp [Fn.D, Fn.eval, iha he]
+  | sin a iha => simp only [Fn.freeOf] at he; simp [Fn.D, Fn.eval, iha he]
+  | cos a iha => simp only [Fn.freeOf] at he; simp [Fn.D, Fn.eval, iha he]
+  | pow a n iha =>
+    simp only [Fn.freeOf] at he
+    cases n with
+    | zero => simp [Fn.D, Fn.zero, Fn.eval]
+    | succ n => simp [Fn.D, Fn.eval, iha he]
+
+/-- **An affine tree equals its first-order expansion** at every point: `e(p') = e(p) + Σ_{v < nv} ∂_v e(p)·(p'_v − p_v)`
+for environments that agree from `nv` on (same time). -/
+theorem affine_expansion (nv : ℕ) (p p' : ℕ → ℝ) (hp : ∀ j, nv ≤ j → p' j = p j) (e : Fn) (he : e.affineIn nv = true) :
+    e.eval p' = e.eval p + linPart (Finset.range nv) p e (fun v => p' v - p v) := by
+  have lin0 : ∀ f : Fn, f.freeOf nv = true → linPart (Finset.range nv) p f (fun v => p' v - p v) = 0 := by
+    intro f hf
+    unfold linPart
+    exact Finset.sum_eq_zero fun v hv => by rw [D_free nv p v (Finset.mem_range.mp hv) f hf]; ring
+  induction e with
+  | const s a b => simp [linPart, Fn.D, Fn.zero, Fn.eval]
+  | var i =>
+    simp only [linPart, Fn.D, Fn.eval]
+    by_cases hi : i < nv
+    · rw [Finset.sum_eq_single i]
+      · simp [Fn.one, Fn.eval]
+      · intro b _ hb; simp [Ne.symm hb, Fn.zero, Fn.eval]
+      · intro h; exact absurd (Finset.mem_range.mpr hi) h
+    · rw [Finset.sum_eq_zero, hp i (by omega)]
+      · ring
+      · intro v hv
+        have : i ≠ v := by have := Finset.mem_range.mp hv; omega
+        simp [this, Fn.zero, Fn.eval]
+  | add a b iha ihb =>
+    simp only [Fn.affineIn, Bool.and_eq_true] at he
+    have e1 : linPart (Finset.range nv) p (a.add b) (fun v => p' v - p v)
+        = linPart (Finset.range nv) p a (fun v => p' v - p v) + linPart (Finset.range nv) p b (fun v => p' v - p v) := by
+      simp only [linPart, Fn.D, Fn.eval, ← Finset.sum_add_distrib]
+      exact Finset.sum_congr rfl fun v _ => by ring
+    simp only [Fn.eval, e1, iha he.1, ihb he.2]; ring
+  | sub a b iha ihb =>
+    simp only [Fn.affineIn, Bool.and_eq_true] at he
+    have e1 : linPart (Finset.range nv) p (a.sub b) (fun v => p' v - p v)
+        = linPart (Finset.range nv) p a (fun v => p' v - p v) - linPart (Finset.range nv) p b (fun v => p' v - p v) := by
+      simp only [linPart, Fn.D, Fn.eval, ← Finset.sum_sub_distrib]
+      exact Finset.sum_congr rfl fun v _ => by ring
+    simp only [Fn.eval, e1, iha he.1, ihb he.2]; ring
+  | mul a b iha ihb =>
+    have e1 : linPart (Finset.range nv) p (a.mul b) (fun v => p' v - p v)
+        = linPart (Finset.range nv) p a (fun v => p' v - p v) * b.eval p + a.eval p * linPart (Finset.range nv) p b (fun v => p' v - p v) := by
+      simp only [linPart, Fn.D, Fn.eval, Finset.sum_mul, Finset.mul_sum, ← Finset.sum_add_distrib]
+      exact Finset.sum_congr rfl fun v _ => by ring
+    simp only [Fn.affineIn, Bool.or_eq_true, Bool.and_eq_true] at he
+    rcases he with ⟨ha, hb⟩ | ⟨ha, hb⟩
+    · simp only [Fn.eval, e1, eval_free nv p p' hp a ha, ihb hb, lin0 a ha]; ring
+    · simp only [Fn.eval, e1, eval_free nv p p' hp b hb, iha ha, lin0 b hb]; ring
+  | neg a iha =>
+    simp only [Fn.affineIn] at he
+    have e1 : linPart (Finset.range nv) p a.neg (fun v => p' v - p v) = - linPart (Finset.range nv) p a (fun v => p' v - p v) := by
+      simp only [linPart, Fn.D, Fn.eval, ← Finset.sum_neg_distrib]
+      exact Finset.sum_congr rfl fun v _ => by ring
+    simp only [Fn.eval, e1, iha he]; ring
+  | sin a _ =>
+    simp only [Fn.affineIn] at he
+    have hf : (Fn.sin a).freeOf nv = true := by simpa [Fn.freeOf] using he
+    rw [eval_free nv p p' hp _ hf, lin0 _ hf]; ring
+  | cos a _ =>
+    simp only [Fn.affineIn] at he
+    have hf : (Fn.cos a).freeOf nv = true := by simpa [Fn.freeOf] using he
+    rw [eval_free nv p p' hp _ hf, lin0 _ hf]; ring
+  | pow a n _ =>
+    simp only [Fn.affineIn, Bool.or_eq_true, beq_iff_eq] at he
+    rcases he with he | he
+    · have hf : (Fn.pow a n).freeOf nv = true := by simpa [Fn.freeOf] using he
+      rw [eval_free nv p p' hp _ hf, lin0 _ hf]; ring
+    · subst he
+      simp [linPart, Fn.D, Fn.zero, Fn.eval, npow]
+
+/-- the partial derivatives of an affine tree are coefficients: the same at two environments that agree from `nv` on -/
+theorem D_affine_const (nv : ℕ) (p p' : ℕ → ℝ) (hp : ∀ j, nv ≤ j → p' j = p j) (v : ℕ) (hv : v < nv) (e : Fn)
+    (he : e.affineIn nv = true) : (e.D v).eval p' = (e.D v).eval p := by
+  induction e with
+  | const s a b => simp [Fn.D]
+  | var i => by_cases h : i = v <;> simp [Fn.D, h, Fn.one, Fn.zero, Fn.eval]
+  | add a b iha ihb => simp only [Fn.affineIn, Bool.and_eq_true] at he; simp [Fn.D, Fn.eval, iha he.1, ihb he.2]
+  | sub a b iha ihb => simp only [Fn.affineIn, Bool.and_eq_true] at he; simp [Fn.D, Fn.eval, iha he.1, ihb he.2]
+  | mul a b iha ihb =>
+    simp only [Fn.affineIn, Bool.or_eq_true, Bool.and_eq_true] at he
+    rcases he with ⟨ha, hb⟩ | ⟨ha, hb⟩
+    · simp [Fn.D, Fn.eval, D_free nv p v hv a ha, D_free nv p' v hv a ha, eval_free nv p p' hp a ha, ihb hb]
+    · simp [Fn.D, Fn.eval, D_free nv p v hv b hb, D_free nv p' v hv b hb, eval_free nv p p' hp b hb, iha ha]
+  | neg a iha => simp only [Fn.affineIn] at he; simp [Fn.D, Fn.eval, iha he]
+  | sin a _ =>
+    simp only [Fn.affineIn] at he
+    have hf : (Fn.sin a).freeOf nv = true := by simpa [Fn.freeOf] using he
+    rw [D_free nv p v hv _ hf, D_free nv p' v hv _ hf]
+  | cos a _ =>
+    simp only [Fn.affineIn] at he
+    have hf : (Fn.cos a).freeOf nv = true := by simpa [Fn.freeOf] using he
+    rw [D_free nv p v hv _ hf, D_free nv p' v hv _ hf]
+  | pow a n _ =>
+    simp only [Fn.affineIn, Bool.or_eq_true, beq_iff_eq] at he
+    rcases he with he | he
+    · have hf : (Fn.pow a n).freeOf nv = true := by simpa [Fn.freeOf] using he
+      rw [D_free nv p v hv _ hf, D_free nv p' v hv _ hf]
+    · subst he; simp [Fn.D]
+
+
 end PP.Dyn
